@@ -61,7 +61,12 @@ def get_cfg(name):
         import copy
         return copy.deepcopy(_LIVE['cfg'])      # the reference reads the content as it is now
     if name not in _CFG:
-        if name == 'PKG':
+        if name.endswith('J'):
+            # the same configuration after a JSON round trip (how cardutil.json / --config-file content arrives):
+            # every key and string value is a fresh, non-interned object
+            import json
+            _CFG[name] = json.loads(json.dumps(get_cfg(name[:-1])))
+        elif name == 'PKG':
             # a frozen private copy taken when first asked for: the reference models read this one, so a library that
             # mutates its own packaged configuration diverges from them instead of dragging them along
             import copy
